@@ -16,8 +16,8 @@ LEVEL = 'other'
 EXPLANATION = (
     '(a) The real nested function calculate_even_genome_partitioning.calc_parts is re-read from /repo and evaluated '
     'symbolically (vt/pyk.py). Bounded family: contig length L and interval_size both symbolic (L <= 12 quick, <= 64 '
-    'thorough), loop unwound with an unwinding assertion, math.ceil(a/b) encoded in Float64 (fp.div RNE, RTP); SMT queries '
-    'decide that the inclusive intervals are contiguous from 1, end at L, and are no longer than interval_size. '
+    'thorough), loop unwound with an unwinding assertion; math.ceil(a/b) is read as the integer ceiling, justified on the '
+    'whole bounded domain by a Float64 lemma (fp.div RNE, to_sbv RTP) decided in the same run; SMT queries decide that the inclusive intervals are contiguous from 1, end at L, and are no longer than interval_size. '
     'Unbounded family: for the REAL GRCh37/GRCh38 contig lengths (from hail/hail/resources/reference/*.json) and every '
     'interval_size in [1, 2^31), the while loop is cut at its head with the invariant "positions 1..n-1 are covered, '
     'n = 1 + i*stride or n = L+1" (stride obtained by symbolic execution of the first iteration); base, step (one symbolic '
@@ -197,8 +197,11 @@ def bounded_family(R, rep, Lmax):
     hl, comb = load_real()
     text, outer, node = find_nodes()
     t0 = time.time()
+    def lemma_domain(i, a, b):
+        # the Float64 lemma below is proved for 1 <= a <= Lmax, 1 <= b <= Lmax+1
+        i.add_side(z3.And(i.it(a) >= 1, i.it(a) <= Lmax, i.it(b) >= 1, i.it(b) <= Lmax + 1), 'ceil lemma domain')
     it = pyk.Interp(width=32, max_unwind=Lmax + 1, opaque={id(hl.Interval): 'Interval', id(hl.Locus): 'Locus'},
-                    feas_timeout_ms=5000)
+                    feas_timeout_ms=5000, ceil_cut=lemma_domain)
     L = it.int_var('L')
     S = it.int_var('size')
     it.assume(z3.And(L.t >= 1, L.t <= Lmax, S.t >= 1, S.t <= Lmax + 1))
@@ -207,6 +210,17 @@ def bounded_family(R, rep, Lmax):
     env.vars.update(reference_genome=rg, interval_size=S)
     globs = vars(comb)
     paths = it.explore(lambda i: i.call_node(node, ['1'], {}, globs, env))
+    # Float64 lemma: CPython's math.ceil(a / b) equals the integer ceiling on the whole bounded domain
+    la, lb = z3.BitVec('a', 32), z3.BitVec('b', 32)
+    q = z3.fpDiv(pyk.RNE, z3.fpSignedToFP(pyk.RNE, la, pyk.F64), z3.fpSignedToFP(pyk.RNE, lb, pyk.F64))
+    r, model, dt, solver = decide([la >= 1, la <= Lmax, lb >= 1, lb <= Lmax + 1,
+                                   z3.fpToSBV(z3.RTP(), q, z3.BitVecSort(32)) != z3.UDiv(la + lb - 1, lb)], True, 300)
+    lname = f'Float64 lemma: math.ceil(a/b) == ceil-div for 1 <= a <= {Lmax}, 1 <= b <= {Lmax + 1}'
+    if r == 'sat' and math.ceil(model['a'] / model['b']) == -((-model['a']) // model['b']):
+        raise HarnessError(f'{lname}: solver model is not a counterexample under CPython')
+    lem_ok = r == 'unsat'
+    R.ob(lname, 'discharged' if lem_ok else 'not_discharged', dt, {'solver': solver, 'result': r, 'uses': len(it.lemmas)},
+         nontrivial=True)
     R.log(f'[C38a] bounded L<={Lmax}: {len(paths)} paths, {it.feas_queries} feasibility queries, {time.time() - t0:.1f}s')
     pre = list(it.pre)
     one = it.bv(1)
@@ -262,11 +276,11 @@ def bounded_family(R, rep, Lmax):
     for label, vio, classes in queries:
         name = f'calc_parts, L<={Lmax}, size<={Lmax + 1} symbolic: {label}'
         if z3.is_false(vio):
-            R.ob(name, 'discharged' if reach else 'not_discharged', 0.0, {'note': 'no such path'}, nontrivial=reach)
+            R.ob(name, 'discharged' if (reach and lem_ok) else 'not_discharged', 0.0, {'note': 'no such path'}, nontrivial=reach)
             continue
-        r, model, dt, solver = decide(pre + [vio], True, 300)
+        r, model, dt, solver = decide(pre + [vio], False, 300)
         if r == 'unsat':
-            R.ob(name, 'discharged' if reach else 'not_discharged', dt, {'solver': solver}, nontrivial=reach)
+            R.ob(name, 'discharged' if (reach and lem_ok) else 'not_discharged', dt, {'solver': solver}, nontrivial=reach)
         elif r == 'sat':
             rep.counterexample(name, dt, 'GRCh37', '1', model['L'], model['size'], classes, solver)
         elif r == 'error':
